@@ -17,7 +17,8 @@ DESIGN_REF = 'DESIGN.md section 3 C01'
 LEVEL = 'exploration'
 RULE = ('Cases: (circuit, options c_reuse/strip_forks, batch size, stimulus, cycle count) from a seeded generator (1-8 inputs, 1-60 gates (thorough: to 300), '
         '0-6 state elements, verilog-style and bench-style construction, optional hostile features) plus the fixed all-primitives circuit with all 16 '
-        'input combinations. Non-trivial iff the circuit has >= 2 logic levels and >= 1 fan-out stem. Distinct = digest of (netlist text, options, batch size, stimulus seed).')
+        'input combinations. Non-trivial iff the circuit has >= 2 logic levels and >= 1 fan-out stem. Distinct = digest of (netlist text, options, batch size, stimulus seed).'
+        ' Two large cases per shard: 300-700 gates, up to 40 inputs / state elements, 129-1030 patterns.')
 ASSUMPTIONS = ['unconnected input pin reads constant 0; for AND/OR/XOR families the arity is given by the highest connected pin (no trailing gaps are generated)',
                'row order of ports/state elements follows the documented convention: ports in io order, then flip-flops, then latches, each in creation order',
                'only lanes < batch size are compared; padding lanes carry random garbage on input']
